@@ -538,6 +538,36 @@ static void set_stateless(json_object *o)
 	if (o && !(json_object_get_type(o) == json_type_double && json_object_get_userdata(o)))
 		json_object_set_serializer(o, c09_stateless_ser, NULL, NULL);
 }
+/* an object whose member names were handed over as "constant" keys (JSON_C_OBJECT_ADD_CONSTANT_KEY: not copied by the object;
+ * the caller keeps the memory alive as long as THAT object) is deep-copied; then the source goes away and the name memory is
+ * reused: the copy is a tree of its own - names included - and stays what it was */
+static void ev_constkey_copy(void)
+{
+	static char names[3][8];
+	strcpy(names[0], "alpha");
+	strcpy(names[1], "beta");
+	strcpy(names[2], "gamma");
+	json_object *src = json_object_new_object(), *inner = json_object_new_object(), *copy = NULL;
+	json_object_object_add_ex(inner, names[2], json_object_new_int(3), JSON_C_OBJECT_ADD_CONSTANT_KEY | JSON_C_OBJECT_ADD_KEY_IS_NEW);
+	json_object_object_add_ex(src, names[0], json_object_new_string("v"), JSON_C_OBJECT_ADD_CONSTANT_KEY);
+	json_object_object_add_ex(src, names[1], inner, JSON_C_OBJECT_ADD_CONSTANT_KEY);
+	json_object_object_add(src, "plain", NULL);
+	ev_begin("ckcopy");
+	dump_value("src", src);
+	int rc = json_object_deep_copy(src, &copy, NULL);
+	ev_int("rc", rc);
+	dump_value("copy", copy);
+	json_object_put(src);
+	strcpy(names[0], "ALPHA");
+	strcpy(names[1], "BETA");
+	strcpy(names[2], "GAMMA");
+	dump_value("copy_after", copy);
+	json_object *got = NULL;
+	ev_bool("lookup", copy && json_object_object_get_ex(copy, "alpha", &got) && json_object_object_get_ex(copy, "beta", &got));
+	ev_end();
+	if (copy)
+		json_object_put(copy);
+}
 static int drive(int start, int nexec)
 {
 	const char *seed = getenv("VERIF_SEED");
@@ -568,6 +598,8 @@ static int drive(int start, int nexec)
 		ev_eq(th, t);
 		ev_copy(th);
 		json_object_put(th);
+		if (x % 16 == 0)
+			ev_constkey_copy();
 		json_object *c = gen(2);
 		if (c && vh_below(3) == 0)
 			set_stateless(c);
